@@ -707,6 +707,72 @@ def r6(ctx):
     ctx.emit('C05-R6', ok, TAGGING, w[0] if w else g, 'worker writer context and tagging task share one read_groups dict', key='worker:read-groups-dict', nontrivial=False)
 
 
+class _ModelBam:
+    """stand-in for the input BAM inside the task-generation model: reads are (start, end) intervals per contig"""
+    def __init__(self, reads):
+        self.reads = reads
+
+    def count(self, contig=None, start=None, stop=None):
+        return sum(1 for (s_, e_) in self.reads.get(contig, ()) if (start is None or e_ > start) and (stop is None or s_ < stop))
+
+
+def _task_generation_model(ctx, gt):
+    """generate_tasks, run by the interpreter on a model plan: every planned region whose fetch window (or whole contig) holds a read becomes exactly one task with the
+    planned coordinates - a region may only be left out when nothing can be fetched for it. The model BAM has a read that lies in the margin of a bin only (its site,
+    found through a clipped start, is inside the bin): counting reads over the bin instead of the fetch window leaves that bin without a task."""
+    from ..consteval import run_function, module_scope, Unfoldable, Raised
+    reads = {'c1': [(100, 140)], 'c2': [(5, 30)], 'c3': [], 'c4': [(0, 20)]}
+    plan = [[('c1', 0, 100, 0, 150), ('c1', 100, 200, 50, 250)], [('c2', None, None, None, None)], [('c3', 0, 50, 0, 50)], [('c1', 300, 400, 250, 450)],
+            [('c4', 50, 100, 0, 150), ('c4', 0, 50, 0, 100)]]
+    bam = _ModelBam(reads)
+
+    def hook(ev, call, env):
+        d = dotted(call.func) or ''
+        if last_name(d) == 'AlignmentFile':
+            return bam
+        if isinstance(call.func, ast.Attribute) and isinstance(call.func.value, ast.Name) and env.get(call.func.value.id) is bam:
+            a = [ev.ev(x, env) for x in call.args]
+            kw = {k.arg: ev.ev(k.value, env) for k in call.keywords if k.arg}
+            if call.func.attr == 'count':
+                names = ['contig', 'start', 'stop']
+                full = dict(zip(names, a))
+                full.update({('stop' if k == 'end' else 'contig' if k == 'reference' else k): v for k, v in kw.items()})
+                if set(full) - set(names):
+                    raise Unfoldable('count arguments')
+                return bam.count(**full)
+            if call.func.attr in ('close', '__exit__'):
+                return None
+            raise Unfoldable(f'model BAM method {call.func.attr}')
+        return NotImplemented
+    try:
+        env = dict(module_scope(ctx.ix, TAGGING))
+        out = run_function(gt, ['in.bam', 'tmp', [list(j) for j in plan], {'it': 1}, {'extra': 2}, 7], env=env, call_hook=hook, budget=50000)
+        out = [(tuple(h), [dict(d) for d in ts]) for h, ts in list(out)]
+    except (Unfoldable, Raised, Exception) as e_:
+        ctx.emit('C05-R7', False, TAGGING, gt, f'generate_tasks is outside the interpreted subset ({type(e_).__name__}: {str(e_)[:80]})', key='planned-regions-become-tasks', undecided=True)
+        return
+    planned = [r for j in plan for r in j]
+    must = [r for r in planned if bam.count(r[0], r[3], r[4]) > 0]
+    got = [(d.get('contig'), d.get('start'), d.get('end'), d.get('fetch_start'), d.get('fetch_end')) for h, ts in out for d in ts]
+    bad = None
+    if any(h != ('in.bam', 'tmp', 7) for h, ts in out):
+        bad = {'task header': [h for h, ts in out if h != ('in.bam', 'tmp', 7)][0], 'expected': ('in.bam', 'tmp', 7)}
+    elif [r for r in must if got.count(r) != 1]:
+        r = [r for r in must if got.count(r) != 1][0]
+        bad = {'planned region (contig, start, end, fetch_start, fetch_end)': r, 'reads in its fetch window': bam.count(r[0], r[3], r[4]), 'tasks made for it': got.count(r)}
+    elif [g for g in got if g not in planned or got.count(g) > 1]:
+        bad = {'task that was never planned / is made twice': [g for g in got if g not in planned or got.count(g) > 1][0]}
+    elif any(d.get('it') != 1 or d.get('extra') != 2 for h, ts in out for d in ts):
+        bad = {'task without the iterator / additional arguments': [d for h, ts in out for d in ts if d.get('it') != 1 or d.get('extra') != 2][0]}
+    elif len({id(d) for h, ts in out for d in ts}) != len(got):
+        bad = None     # aliasing is decided by the rule below
+    ctx.counters['interpreted_cases'] = ctx.counters.get('interpreted_cases', 0) + len(planned)
+    ctx.emit('C05-R7', bad is None, TAGGING, gt, f'model plan of {len(planned)} regions: every region with a read in its fetch window becomes exactly one task with the planned coordinates and arguments' if bad is None else
+             f'generate_tasks on a model plan: {bad} - the molecules of that region are never processed', key='planned-regions-become-tasks', witness=bad,
+             what='generate_tasks leaves out / duplicates a planned region')
+
+
+
 @rule('C05', 'C05-R7', 'every per-job BAM is merged exactly once: a worker keeps its file iff any of its tasks wrote a molecule '
                        '(accumulated over all tasks), the parent appends every returned file once and merges header + all files')
 def r7(ctx):
@@ -842,6 +908,7 @@ def r7(ctx):
     params = {a.arg for a in t.args.args}
     ok = {'contig', 'start', 'end', 'fetch_start', 'fetch_end'} <= keys and keys <= params
     ctx.emit('C05-R7', ok, TAGGING, gt, f'task dictionaries carry {sorted(keys)}; all are parameters of run_tagging_task', key='task-fields')
+    _task_generation_model(ctx, gt)
     # every task owns its dictionary: what is put into a job's task list is built inside the per-task iteration (a dictionary created once and
     # updated per task is the same object in every slot - all tasks of a job then describe the last region)
     aliased = []
